@@ -31,6 +31,7 @@ import (
 	"strconv"
 	"strings"
 	"sync"
+	"sync/atomic"
 	"time"
 
 	"github.com/datastax/cql-proxy/codecs"
@@ -132,7 +133,7 @@ func (p *Proxy) OnEvent(event proxycore.Event) {
 			// A frame per client, encoding writes to the frame's header and happens on each client's own writer
 			frm := frame.NewFrame(p.cluster.NegotiatedVersion, -1, evt.Message)
 			err := cl.conn.Write(proxycore.SenderFunc(func(writer io.Writer) error {
-				return cl.codec.EncodeFrame(frm, writer)
+				return cl.rawCodec().EncodeFrame(frm, writer)
 			}))
 			cl.conn.LocalAddr()
 			if err != nil {
@@ -326,8 +327,8 @@ func (p *Proxy) handle(conn net.Conn) {
 		ctx:                 p.ctx,
 		proxy:               p,
 		preparedSystemQuery: make(map[[preparedIdSize]byte]interface{}),
-		codec:               codecs.CustomRawCodec,
 	}
+	cl.setRawCodec(codecs.CustomRawCodec)
 	cl.conn = proxycore.NewConn(conn, cl)
 	p.addClient(cl) // Only after the connection is set, Close() uses it for every registered client
 	cl.conn.Start()
@@ -552,11 +553,24 @@ type client struct {
 	compression         string
 	preparedSystemQuery map[[16]byte]interface{}
 	preparedSelectQuery map[[16]byte]interface{}
-	codec               frame.RawCodec
+	codec               atomic.Value // codecHolder; replaced on STARTUP while the connection's writer (and backend readers) use it
+}
+
+// codecHolder gives every value stored in `client.codec` the same concrete type (a requirement of `atomic.Value`).
+type codecHolder struct {
+	frame.RawCodec
+}
+
+func (c *client) rawCodec() frame.RawCodec {
+	return c.codec.Load().(codecHolder).RawCodec
+}
+
+func (c *client) setRawCodec(codec frame.RawCodec) {
+	c.codec.Store(codecHolder{codec})
 }
 
 func (c *client) Receive(reader io.Reader) error {
-	raw, err := c.codec.DecodeRawFrame(reader)
+	raw, err := c.rawCodec().DecodeRawFrame(reader)
 	if err != nil {
 		if !errors.Is(err, io.EOF) {
 			c.proxy.logger.Error("unable to decode frame", zap.Error(err))
@@ -571,7 +585,7 @@ func (c *client) Receive(reader io.Reader) error {
 		return nil
 	}
 
-	body, err := c.codec.DecodeBody(raw.Header, codecs.NewFrameBodyReader(raw.Body))
+	body, err := c.rawCodec().DecodeBody(raw.Header, codecs.NewFrameBodyReader(raw.Body))
 	if err != nil {
 		c.proxy.logger.Error("unable to decode body", zap.Error(err))
 		return err
@@ -586,7 +600,7 @@ func (c *client) Receive(reader io.Reader) error {
 	case *message.Startup:
 		if compression, ok := msg.Options["COMPRESSION"]; ok {
 			if codec, ok := codecs.CustomRawCodecsWithCompression[strings.ToLower(compression)]; ok {
-				c.codec = codec
+				c.setRawCodec(codec)
 				c.compression = compression
 			} else {
 				c.proxy.logger.Error("unsupported compression type used by client", zap.String("compression", compression))
@@ -882,7 +896,7 @@ func (c *client) interceptSystemQuery(hdr *frame.Header, stmt interface{}) {
 
 func (c *client) send(hdr *frame.Header, msg message.Message) {
 	_ = c.conn.Write(proxycore.SenderFunc(func(writer io.Writer) error {
-		return c.codec.EncodeFrame(frame.NewFrame(hdr.Version, hdr.StreamId, msg), writer)
+		return c.rawCodec().EncodeFrame(frame.NewFrame(hdr.Version, hdr.StreamId, msg), writer)
 	}))
 }
 
@@ -948,7 +962,7 @@ func (c *client) reencodeFrame(raw *frame.RawFrame, body *frame.Body) interface{
 		Header: raw.Header,
 		Body:   body,
 	}
-	converted, err := c.codec.ConvertToRawFrame(frm)
+	converted, err := c.rawCodec().ConvertToRawFrame(frm)
 	if err != nil {
 		// Forward the request as it was received, the backend will answer with its own error for the consistency level
 		c.proxy.logger.Error("unable to re-encode request after overriding the write consistency", zap.Error(err))
@@ -972,7 +986,7 @@ func (c *client) maybeStorePreparedMetadata(raw *frame.RawFrame, isSelect bool, 
 	logger := c.proxy.logger
 
 	if prepareMsg, ok := msg.(*message.Prepare); ok && raw.Header.OpCode == primitive.OpCodeResult { // Prepared result
-		frm, err := c.codec.ConvertFromRawFrame(raw)
+		frm, err := c.rawCodec().ConvertFromRawFrame(raw)
 		if err != nil {
 			logger.Error("error attempting to decode prepared result message")
 		} else if preparedResultMsg, ok := frm.Body.Message.(*message.PreparedResult); !ok { // TODO: Use prepared type data to disambiguate idempotency
